@@ -1,5 +1,490 @@
-//! pure-probe suite `format` (see /verif/ARCH.md). STUB — to be replaced.
-use crate::util::Tier;
+//! pure-probe suite `format` (property C06, boot-sector part; see /verif/ARCH.md).
+//!
+//! ```text
+//! P format.bs bps=<n> total=<n> bpc=<n|none> fat=<12|16|32|none> root=<n> fats=<n> media=<n> spt=<n> heads=<n>
+//!             drive=<n|none> volid=<n> label=<hex11|none> => <fatbits> <hex512> | ERR <code> | PANIC
+//! P format.sweepblock <start> <end> => <nfail> <first_fail|none>
+//! ```
+//!
+//! `format.bs` calls the hook `fatfs::verif::format_boot_sector_bytes` (= `format_boot_sector` + strict `validate` +
+//! `serialize`, i.e. everything `format_volume` does before its first device write).
+//!
+//! Generator: every boundary of every case split of the Lean model (`Model/Format.lean`) ±2, for all option
+//! combinations, plus a dense random grid. The optional mode `format-sweep`
+//! (`harness pure format format-sweep <seed> [first_block [n_blocks]]`) runs the real function with default options
+//! over every `total_sectors` of the 32-bit range and prints one summary line per 2^24 block.
+use crate::rng::SplitMix64;
+use crate::util::{catch, hex, opt, Tier};
+use fatfs::{FatType, FormatVolumeOptions};
 use std::io::Write;
 
-pub fn run(_tier: Tier, _seed: u64, _out: &mut dyn Write) {}
+#[derive(Clone, Debug)]
+struct Case {
+    bps: u16,
+    total: u32,
+    bpc: Option<u32>,
+    fat: Option<u8>,
+    root: u16,
+    fats: u8,
+    media: u8,
+    spt: u16,
+    heads: u16,
+    drive: Option<u8>,
+    volid: u32,
+    label: Option<[u8; 11]>,
+}
+
+impl Case {
+    fn new(bps: u16, total: u32, bpc: Option<u32>, fat: Option<u8>, root: u16, fats: u8) -> Self {
+        Case {
+            bps,
+            total,
+            bpc,
+            fat,
+            root,
+            fats,
+            media: 0xF8,
+            spt: 0x20,
+            heads: 0x40,
+            drive: None,
+            volid: 0x1234_5678,
+            label: None,
+        }
+    }
+
+    /// Only through the public builder: it is what defines the accepted options.
+    fn options(&self) -> FormatVolumeOptions {
+        let mut o = FormatVolumeOptions::new()
+            .bytes_per_sector(self.bps)
+            .total_sectors(self.total)
+            .max_root_dir_entries(self.root)
+            .fats(self.fats)
+            .media(self.media)
+            .sectors_per_track(self.spt)
+            .heads(self.heads)
+            .volume_id(self.volid);
+        if let Some(c) = self.bpc {
+            o = o.bytes_per_cluster(c);
+        }
+        if let Some(f) = self.fat {
+            o = o.fat_type(fat_type(f));
+        }
+        if let Some(d) = self.drive {
+            o = o.drive_num(d);
+        }
+        if let Some(l) = self.label {
+            o = o.volume_label(l);
+        }
+        o
+    }
+
+    fn emit(&self, out: &mut dyn Write) {
+        let opts = self.options();
+        let total = self.total;
+        let res = catch(|| fatfs::verif::format_boot_sector_bytes(&opts, total));
+        let rhs = match res {
+            None => "PANIC".to_string(),
+            Some(Err(code)) => format!("ERR {}", code),
+            Some(Ok((bytes, bits))) => format!("{} {}", bits, hex(&bytes)),
+        };
+        writeln!(
+            out,
+            "P format.bs bps={} total={} bpc={} fat={} root={} fats={} media={} spt={} heads={} drive={} volid={} label={} => {}",
+            self.bps,
+            self.total,
+            opt(self.bpc),
+            opt(self.fat),
+            self.root,
+            self.fats,
+            self.media,
+            self.spt,
+            self.heads,
+            opt(self.drive),
+            self.volid,
+            match self.label {
+                Some(l) => hex(&l),
+                None => "none".into(),
+            },
+            rhs
+        )
+        .unwrap();
+    }
+}
+
+fn fat_type(bits: u8) -> FatType {
+    match bits {
+        12 => FatType::Fat12,
+        16 => FatType::Fat16,
+        _ => FatType::Fat32,
+    }
+}
+
+const BPS: [u16; 5] = [512, 1024, 2048, 4096, 8192];
+const BPS_ALL: [u16; 7] = [512, 1024, 2048, 4096, 8192, 16384, 32768];
+const BPC: [Option<u32>; 10] = [
+    None,
+    Some(512),
+    Some(1024),
+    Some(2048),
+    Some(4096),
+    Some(8192),
+    Some(16384),
+    Some(32768),
+    Some(65536),
+    Some(1 << 20),
+];
+const FAT: [Option<u8>; 4] = [None, Some(12), Some(16), Some(32)];
+const FATS: [u8; 2] = [1, 2];
+const ROOTS: [u16; 9] = [0, 1, 15, 16, 17, 511, 512, 513, 65535];
+const KB: u64 = 1024;
+const MB: u64 = 1024 * KB;
+const GB: u64 = 1024 * MB;
+/// byte thresholds of `estimate_fat_type` / `determine_bytes_per_cluster`
+const BYTE_THRESHOLDS: [u64; 6] = [4200 * KB, 512 * MB, 16 * MB, 128 * MB, 260 * MB, 8 * GB];
+
+/// Wide-arithmetic replica of the layout arithmetic, used ONLY to aim the generator at the boundaries
+/// (never to judge an answer). Returns (sectors_per_fat, clusters); clusters may be negative.
+fn layout(total: u64, bps: u64, spc: u64, bits: u64, fats: u64, rds: u64) -> (i128, i128) {
+    let reserved: u64 = if bits == 32 { 8 } else { 1 };
+    let t0 = total as i128 - reserved as i128 - rds as i128;
+    let t1 = t0 + 2 * spc as i128;
+    let t2 = (spc * bps * 8 / bits + fats) as i128;
+    let spf = (t1 + t2 - 1).div_euclid(t2);
+    let data = t0 - spf * fats as i128;
+    (spf, data.div_euclid(spc.max(1) as i128))
+}
+
+fn rds_of(root: u16, bps: u16, bits: u64) -> u64 {
+    if bits == 32 {
+        0
+    } else {
+        (u64::from(root) * 32 + u64::from(bps) - 1) / u64::from(bps)
+    }
+}
+
+/// smallest total in [0, 2^32] for which `pred` holds (pred is monotone up to rounding noise)
+fn first_total(pred: impl Fn(u64) -> bool) -> Option<u64> {
+    let (mut lo, mut hi) = (0u64, 1u64 << 32);
+    if !pred(hi) {
+        return None;
+    }
+    while lo < hi {
+        let mid = (lo + hi) / 2;
+        if pred(mid) {
+            hi = mid;
+        } else {
+            lo = mid + 1;
+        }
+    }
+    Some(lo)
+}
+
+fn around(v: u64, radius: u64, out: &mut Vec<u32>) {
+    for d in 0..=2 * radius {
+        let x = (v + d).wrapping_sub(radius);
+        if x <= u64::from(u32::MAX) {
+            out.push(x as u32);
+        }
+    }
+}
+
+/// totals at which the cluster count crosses a FAT-width limit, or the FAT-capacity computation overflows `u32`,
+/// for a fixed (bps, spc, width, fats, root)
+fn layout_boundaries(bps: u16, spc: u64, bits: u64, fats: u8, root: u16, out: &mut Vec<u32>) {
+    let rds = rds_of(root, bps, bits);
+    let b = u64::from(bps);
+    let f = u64::from(fats);
+    for limit in [4085_i128, 65525, 0x0FFF_FFF5] {
+        if let Some(t) = first_total(|t| layout(t, b, spc, bits, f, rds).1 >= limit) {
+            around(t, 2, out);
+            // one cluster further / one FAT sector further
+            around(t + spc, 1, out);
+            if t > spc {
+                around(t - spc, 1, out);
+            }
+        }
+    }
+    // `sectors_per_fat * bytes_per_sector * 8` reaches 2^32 (validate_total_clusters)
+    if let Some(t) = first_total(|t| layout(t, b, spc, bits, f, rds).0 * i128::from(bps) * 8 >= 1 << 32) {
+        around(t, 2, out);
+    }
+    // sectors_per_fat reaches 2^16 (u16::try_from in format_bpb)
+    if let Some(t) = first_total(|t| layout(t, b, spc, bits, f, rds).0 >= 1 << 16) {
+        around(t, 2, out);
+    }
+    // `total <= reserved + root_dir_sectors + 8`
+    let reserved: u64 = if bits == 32 { 8 } else { 1 };
+    around(reserved + rds + 8, 2, out);
+}
+
+fn generic_totals(out: &mut Vec<u32>) {
+    around(2, 2, out); // 0..4
+    around(16, 2, out);
+    around(42, 2, out);
+    around(65536, 2, out);
+    around(u64::from(u32::MAX) - 2, 2, out);
+    out.extend_from_slice(&[1000, 8227, 20000, 1 << 20, 1 << 24, 1 << 28, 1 << 31]);
+}
+
+/// thresholds of the heuristics (they are in bytes) mapped to sectors
+fn heuristic_totals(bps: u16, out: &mut Vec<u32>) {
+    let b = u64::from(bps);
+    for thr in BYTE_THRESHOLDS {
+        around(thr / b, 2, out);
+    }
+    // `next_power_of_two` steps: total_bytes = 2^k
+    for k in 9..=47 {
+        let t = (1u64 << k) / b;
+        if t >= 1 && t <= (1u64 << 32) + 2 {
+            around(t, 1, out);
+        }
+    }
+}
+
+fn spc_values(bps: u16, bpc: Option<u32>) -> Vec<u64> {
+    match bpc {
+        Some(c) => vec![u64::from(c) / u64::from(bps)],
+        // the heuristic picks a cluster size in [bps, 32 KiB]
+        None => {
+            let mut v = Vec::new();
+            let mut c = u64::from(bps);
+            while c <= 32768 {
+                v.push(c / u64::from(bps));
+                c *= 2;
+            }
+            if v.is_empty() {
+                v.push(1);
+            }
+            v
+        }
+    }
+}
+
+fn boundary_cases(out: &mut dyn Write) -> usize {
+    let mut n = 0;
+    for &bps in &BPS {
+        for (ci, &bpc) in BPC.iter().enumerate() {
+            for &fat in &FAT {
+                for &fats in &FATS {
+                    let widths: Vec<u64> = match fat {
+                        Some(f) => vec![u64::from(f)],
+                        None => vec![32, 16, 12],
+                    };
+                    let spcs = spc_values(bps, bpc);
+                    // the root-entry sweep is done for a subset of the cluster sizes
+                    let root_sweep = matches!(ci, 0 | 1 | 4 | 8);
+                    let roots: &[u16] = if root_sweep { &ROOTS } else { &[512] };
+                    for &root in roots {
+                        let mut totals: Vec<u32> = Vec::new();
+                        if root == 512 {
+                            generic_totals(&mut totals);
+                            if bpc.is_none() {
+                                heuristic_totals(bps, &mut totals);
+                            }
+                        } else {
+                            totals.extend_from_slice(&[20000, 300_000]);
+                        }
+                        for &spc in &spcs {
+                            // spc 0 (F11) and spc > 255 have no layout; their boundaries are the generic ones
+                            if spc == 0 || spc > 255 {
+                                for &w in &widths {
+                                    let reserved: u64 = if w == 32 { 8 } else { 1 };
+                                    around(reserved + rds_of(root, bps, w) + 8, 2, &mut totals);
+                                }
+                                continue;
+                            }
+                            for &w in &widths {
+                                if root == 512 {
+                                    layout_boundaries(bps, spc, w, fats, root, &mut totals);
+                                } else if w != 32 {
+                                    // the root count moves the FAT12/16 boundaries
+                                    let rds = rds_of(root, bps, w);
+                                    around(1 + rds + 8, 2, &mut totals);
+                                    if let Some(t) = first_total(|t| {
+                                        layout(t, u64::from(bps), spc, w, u64::from(fats), rds).1 >= 4085
+                                    }) {
+                                        around(t, 2, &mut totals);
+                                    }
+                                }
+                            }
+                        }
+                        totals.sort_unstable();
+                        totals.dedup();
+                        for &total in &totals {
+                            Case::new(bps, total, bpc, fat, root, fats).emit(out);
+                            n += 1;
+                        }
+                    }
+                }
+            }
+        }
+    }
+    // the two largest sector sizes the builder accepts, and cluster sizes up to 2^31: a thin slice
+    for &bps in &[16384u16, 32768] {
+        for &bpc in &[None, Some(512), Some(16384), Some(32768), Some(65536), Some(1 << 22), Some(1 << 31)] {
+            for &fat in &FAT {
+                let mut totals = Vec::new();
+                generic_totals(&mut totals);
+                if bpc.is_none() {
+                    heuristic_totals(bps, &mut totals);
+                }
+                totals.sort_unstable();
+                totals.dedup();
+                for &total in &totals {
+                    Case::new(bps, total, bpc, fat, 512, 2).emit(out);
+                    n += 1;
+                }
+            }
+        }
+    }
+    for &bpc in &[Some(1u32 << 23), Some(1 << 31)] {
+        for &bps in &BPS {
+            for &total in &[0u32, 17, 42, 100_000, u32::MAX] {
+                Case::new(bps, total, bpc, None, 512, 2).emit(out);
+                n += 1;
+            }
+        }
+    }
+    n
+}
+
+fn random_total(rng: &mut SplitMix64, bps: u16) -> u32 {
+    match rng.below(10) {
+        // log-uniform
+        0..=4 => {
+            let bits = rng.range(1, 32);
+            (rng.next_u64() & ((1u64 << bits) - 1)) as u32
+        }
+        // near a heuristic threshold
+        5..=6 => {
+            let mut v = Vec::new();
+            heuristic_totals(bps, &mut v);
+            let base = *rng.pick(&v);
+            base.wrapping_add(rng.range(0, 64) as u32).wrapping_sub(32)
+        }
+        // small volumes
+        7 => rng.range(0, 70_000) as u32,
+        // around a cluster-count limit for a random geometry
+        8 => {
+            let spc = 1u64 << rng.below(8);
+            let bits = *rng.pick(&[12u64, 16, 32]);
+            let limit = *rng.pick(&[4085i128, 65525, 0x0FFF_FFF5]);
+            let fats = rng.range(1, 2);
+            let rds = rds_of(*rng.pick(&ROOTS), bps, bits);
+            match first_total(|t| layout(t, u64::from(bps), spc, bits, fats, rds).1 >= limit) {
+                Some(t) => (t as u32).wrapping_add(rng.range(0, 16) as u32).wrapping_sub(8),
+                None => rng.next_u32(),
+            }
+        }
+        _ => rng.next_u32(),
+    }
+}
+
+fn random_case(rng: &mut SplitMix64) -> Case {
+    let bps = if rng.chance(1, 12) { *rng.pick(&BPS_ALL) } else { *rng.pick(&BPS) };
+    let bpc = match rng.below(10) {
+        0..=3 => None,
+        4..=8 => Some(1u32 << rng.range(9, 17)),
+        _ => Some(1u32 << rng.range(9, 31)),
+    };
+    let fat = *rng.pick(&FAT);
+    let fats = *rng.pick(&FATS);
+    let root = if rng.chance(1, 2) { *rng.pick(&ROOTS) } else if rng.chance(1, 2) { (rng.below(64) * 16) as u16 } else { rng.next_u32() as u16 };
+    let total = random_total(rng, bps);
+    let mut c = Case::new(bps, total, bpc, fat, root, fats);
+    if rng.chance(1, 2) {
+        c.media = rng.next_u32() as u8;
+        c.spt = rng.next_u32() as u16;
+        c.heads = rng.next_u32() as u16;
+        c.volid = rng.next_u32();
+        if rng.chance(1, 2) {
+            c.drive = Some(rng.next_u32() as u8);
+        }
+        if rng.chance(1, 2) {
+            let mut l = [0u8; 11];
+            for b in l.iter_mut() {
+                *b = if rng.chance(3, 4) { rng.range(0x20, 0x7E) as u8 } else { rng.next_u32() as u8 };
+            }
+            c.label = Some(l);
+        }
+    }
+    c
+}
+
+/// default options, all totals in [start, end): (number of failures incl. panics, first failing total)
+fn sweep_block(start: u64, end: u64) -> (u64, Option<u64>) {
+    let opts = FormatVolumeOptions::new();
+    let mut nfail = 0;
+    let mut first = None;
+    for t in start..end {
+        let ok = matches!(catch(|| fatfs::verif::format_boot_sector_bytes(&opts, t as u32)), Some(Ok(_)));
+        if !ok {
+            nfail += 1;
+            if first.is_none() {
+                first = Some(t);
+            }
+        }
+    }
+    (nfail, first)
+}
+
+/// the full 2^32 sweep (or blocks `[first_block, first_block + n_blocks)` of 2^24 totals each)
+pub fn run_sweep(first_block: u64, n_blocks: u64, out: &mut dyn Write) {
+    const BLOCK: u64 = 1 << 24;
+    let blocks: Vec<u64> = (first_block..(first_block + n_blocks).min(256)).collect();
+    let nthreads = std::thread::available_parallelism().map(|n| n.get()).unwrap_or(4).min(blocks.len().max(1));
+    let mut results: Vec<Option<(u64, Option<u64>)>> = vec![None; blocks.len()];
+    std::thread::scope(|s| {
+        let handles: Vec<_> = (0..nthreads)
+            .map(|tid| {
+                let blocks = &blocks;
+                s.spawn(move || {
+                    let mut r = Vec::new();
+                    let mut i = tid;
+                    while i < blocks.len() {
+                        r.push((i, sweep_block(blocks[i] * BLOCK, (blocks[i] + 1) * BLOCK)));
+                        i += nthreads;
+                    }
+                    r
+                })
+            })
+            .collect();
+        for h in handles {
+            for (i, r) in h.join().unwrap() {
+                results[i] = Some(r);
+            }
+        }
+    });
+    for (i, b) in blocks.iter().enumerate() {
+        let (nfail, first) = results[i].unwrap();
+        writeln!(out, "P format.sweepblock {} {} => {} {}", b * BLOCK, (b + 1) * BLOCK, nfail, opt(first)).unwrap();
+    }
+}
+
+pub fn run(tier: Tier, seed: u64, out: &mut dyn Write) {
+    // optional mode, selected by the tier argument (main.rs maps an unknown tier word to Quick)
+    let args: Vec<String> = std::env::args().collect();
+    if args.get(3).map(String::as_str) == Some("format-sweep") {
+        let first = args.get(5).and_then(|s| s.parse().ok()).unwrap_or(0);
+        let n = args.get(6).and_then(|s| s.parse().ok()).unwrap_or(256);
+        run_sweep(first, n, out);
+        return;
+    }
+    let mut rng = SplitMix64::new(seed ^ 0xF0_06);
+    let n = boundary_cases(out);
+    // a small exhaustive prefix of the default-options sweep (the 42-sector cliff) in every run
+    run_sweep_prefix(out);
+    let n_random = tier.pick(100_000usize, 1_000_000usize.saturating_sub(n));
+    for _ in 0..n_random {
+        random_case(&mut rng).emit(out);
+    }
+}
+
+/// totals 0..4096 with default options, one `format.bs` line each, and the first 2^16 as one sweep line
+fn run_sweep_prefix(out: &mut dyn Write) {
+    for total in 0..4096u32 {
+        Case::new(512, total, None, None, 512, 2).emit(out);
+    }
+    let (nfail, first) = sweep_block(0, 1 << 16);
+    writeln!(out, "P format.sweepblock 0 65536 => {} {}", nfail, opt(first)).unwrap();
+}
